@@ -267,6 +267,7 @@ func c18XML(c *wk.Case) {
 
 type htmlExpect struct {
 	texts []string    // strings that must appear as exact text of a leaf element (or as href for link-like strings)
+	plain []string    // map keys: must appear as text, whatever they look like (a key is never a link)
 	attrs [][2]string // (attribute name, exact value) that must appear
 	fails bool        // a failing style closure is inside: ToHtml may return an error (if the closure is applied at that position), never panic
 	alts  [][]string  // at least one string of each group must appear as text (style closures are only applied in some positions)
@@ -333,7 +334,7 @@ func c18HTMLValue(c *wk.Case, d int, maxList int, exp *htmlExpect, inline bool) 
 				continue
 			}
 			seen[key] = true
-			exp.texts = append(exp.texts, key+":")
+			exp.plain = append(exp.plain, key+":")
 			lm = lm.Append(key, c18HTMLValue(c, d+1, maxList, exp, inline))
 		}
 		return value.NewMap(lm)
@@ -573,6 +574,12 @@ func c18HTML(c *wk.Case) {
 		attrSet[a] = true
 		if a[0] == "href" {
 			hrefs[a[1]] = true
+		}
+	}
+	for _, t := range exp.plain {
+		if leafSet[t] == 0 {
+			c.Violation("html-key-not-plain-text", fmt.Sprintf("the map key %q does not decode back from any text node; output %q", t, truncate(string(res), 700)), map[string]any{"html": string(res), "string": t})
+			return
 		}
 	}
 	for _, t := range exp.texts {
